@@ -130,8 +130,14 @@ def bind(d, pos, kws, has_receiver):
             return None
         else:
             bound[p['name']] = 'default'
+    own = {p['name'] for p in params}
     for name in kws:
         if not d.get('kwargs'):
+            return None
+        if name in own:
+            # (a keyword that is the python name of one of the overload's
+            # own parameters - reachable only under its alias, or hidden -
+            # cannot be delivered through **kwargs: not callable this way)
             return None
         kw_param[name] = 'kwargs'
     return {'slots': slot_param, 'kw': kw_param, 'bound': bound}
